@@ -76,7 +76,33 @@ func (s *MergeExp) HasRef() bool {
 	if s.ForkNode != nil {
 		return true
 	}
-	return s.Value.HasRef()
+	if s.Value.HasRef() {
+		return true
+	}
+	// Even if the value is a constant, how many copies of it there are may
+	// depend on a stage output.
+	return len(mapSourceRefs(s.MergeOver)) > 0
+}
+
+// mapSourceRefs returns the references which determine the length or keys of
+// the given source, if they are not known statically.
+func mapSourceRefs(src MapCallSource) []*RefExp {
+	if src == nil || src.KnownLength() {
+		return nil
+	}
+	switch src := src.(type) {
+	case *MapCallSet:
+		return mapSourceRefs(src.Master)
+	case *BoundReference:
+		if src.Exp != nil {
+			return []*RefExp{src.Exp}
+		}
+	case *MergeExp:
+		return mapSourceRefs(src.MergeOver)
+	case Exp:
+		return src.FindRefs()
+	}
+	return nil
 }
 
 func (s *MergeExp) HasSplit() bool {
@@ -121,6 +147,9 @@ func (m *MergeExp) FindRefs() []*RefExp {
 			}
 		}
 		refs = append(refs, m.ForkNode)
+	} else if len(refs) == 0 {
+		// The value does not depend on any stage, but its multiplicity may.
+		return mapSourceRefs(m.MergeOver)
 	}
 	return refs
 }
